@@ -558,3 +558,121 @@ def r_fixpoint(A, ctx, scope, rule="R-FIXPOINT"):
     except (Unsupported, ZeroDivisionError, IndexError) as e:
         ctx.ob(rule, key, None, detail=f"not lifted: {e}")
     ctx.floor(rule, n, scope.get("floor", 4))
+
+
+# ------------------------------------------------------------------ datafit accessor pairs
+def r_accessor_eq(A, ctx, scope, rule="R-ACCESSOR-EQ", select=None):
+    ctx.rule(rule, "every datafit accessor that exists in a dense and a `_sparse` version returns equal "
+             "terms on the 3x3 design with structural zeros (arguments bound by parameter name; "
+             "spectral norms of equal matrices are one opaque symbol, so dense `norm(X, ord=2)` and "
+             "the CSC power iteration are compared through the matrix they are taken of)")
+    prog = A.prog
+    X, csc = design()
+    y = Vec(sym(f"y{i}") for i in range(N))
+    Y = Mat(Vec(sym(f"Y{i}{t}") for t in range(T)) for i in range(N))
+    n = 0
+    for dcls in prog.datafits:
+        multitask = dcls.is_subclass_of(prog.BaseMultitaskDatafit)
+        names = sorted(m for m in dcls.all_methods() if m.endswith("_sparse"))
+        for ms in names:
+            md = ms[: -len("_sparse")]
+            fs, fd = dcls.find_method(ms), dcls.find_method(md)
+            if fd is None or fs is None or fs.cls.name.startswith("Base") or fd.cls.name.startswith("Base"):
+                continue
+            if md.startswith("initialize"):
+                continue
+            if select is not None and not select(md):
+                continue
+            if dcls.name == "Cox":
+                continue
+            key = f"{dcls.fq}::{md}"
+            try:
+                outs = []
+                for sparse, f in ((False, fd), (True, fs)):
+                    rg = Region(world())
+                    L = RegionLifter(prog, rg, max_steps=40000)
+                    dobj = make_obj(prog, dcls)
+                    im = dcls.find_method("initialize_sparse" if sparse else "initialize")
+                    yv = Y if multitask else y
+                    if im is not None and not im.cls.name.startswith("Base"):
+                        L.call_function(im, (list(csc) if sparse else [X]) + [yv], self_obj=dobj)
+                    args = []
+                    for p in f.call_params():
+                        pl = p.lower()
+                        if pl.endswith("_data"):
+                            args.append(csc[0])
+                        elif pl.endswith("_indptr"):
+                            args.append(csc[1])
+                        elif pl.endswith("_indices"):
+                            args.append(csc[2])
+                        elif p in ("X", "yXT"):
+                            args.append(X)
+                        elif p == "y":
+                            args.append(y)
+                        elif p == "Y":
+                            args.append(Y)
+                        elif p == "w":
+                            args.append(Vec(sym(f"w{j}") for j in range(P)))
+                        elif p == "W":
+                            args.append(Mat(Vec(sym(f"W{j}{t}") for t in range(T)) for j in range(P)))
+                        elif p in ("Xw", "yXTw"):
+                            args.append(Vec(sym(f"Xw{i}") for i in range(N)))
+                        elif p == "XW":
+                            args.append(Mat(Vec(sym(f"XW{i}{t}") for t in range(T)) for i in range(N)))
+                        elif p == "j":
+                            args.append(2)
+                        elif p == "g":
+                            args.append(1)
+                        else:
+                            raise Unsupported(f"parameter {p} of {f.name} not bound")
+                    outs.append((L.call_function(f, args, self_obj=dobj), rg))
+                (a, rg), (b, _) = outs
+                n += 1
+                d = _first_diff(rg, a, b)
+                ctx.ob(rule, key, d is None,
+                       what=f"{dcls.name}.{md} and {dcls.name}.{ms} differ on the 3x3 design with structural "
+                            f"zeros: {d} (dense vs CSC)", loc=loc(fs, fs.node))
+            except Raised as e:
+                n += 1
+                ctx.ob(rule, key, False, what=f"{dcls.name}.{md}/{ms} raises: {e}", loc=loc(fs, fs.node))
+            except (Unsupported, ZeroDivisionError) as e:
+                ctx.ob(rule, key, None, detail=f"not lifted: {e}")
+    # full_grad_sparse stacks the coordinate gradients
+    for dcls in prog.datafits:
+        ff = dcls.find_method("full_grad_sparse")
+        fg = dcls.find_method("gradient_scalar_sparse")
+        if ff is None or fg is None or ff.cls.name.startswith("Base") or dcls.name == "Cox":
+            continue
+        if select is not None and not select("full_grad"):
+            continue
+        key = f"{dcls.fq}::full_grad_sparse"
+        try:
+            rg = Region(world())
+            L = RegionLifter(prog, rg, max_steps=40000)
+            dobj = make_obj(prog, dcls)
+            im = dcls.find_method("initialize_sparse")
+            if im is not None and not im.cls.name.startswith("Base"):
+                L.call_function(im, list(csc) + [y], self_obj=dobj)
+
+            def bind(f, j=None):
+                out = []
+                for p in f.call_params():
+                    pl = p.lower()
+                    out.append(csc[0] if pl.endswith("_data") else csc[1] if pl.endswith("_indptr")
+                               else csc[2] if pl.endswith("_indices") else y if p == "y"
+                               else Vec(sym(f"w{k}") for k in range(P)) if p == "w"
+                               else Vec(sym(f"Xw{i}") for i in range(N)) if p in ("Xw", "yXTw") else j)
+                return out
+            full = L.call_function(ff, bind(ff), self_obj=dobj)
+            each = Vec(L.call_function(fg, bind(fg, j), self_obj=dobj) for j in range(P))
+            n += 1
+            d = _first_diff(rg, full, each)
+            ctx.ob(rule, key, d is None,
+                   what=f"{dcls.name}.full_grad_sparse is not the stack of gradient_scalar_sparse: {d}",
+                   loc=loc(ff, ff.node))
+        except Raised as e:
+            n += 1
+            ctx.ob(rule, key, False, what=f"{dcls.name}.full_grad_sparse raises: {e}", loc=loc(ff, ff.node))
+        except (Unsupported, ZeroDivisionError) as e:
+            ctx.ob(rule, key, None, detail=f"not lifted: {e}")
+    ctx.floor(rule, n, scope.get("floor", 15))
